@@ -108,6 +108,57 @@ SEEDS = {
         needs="a delay step after a pulse with >= 2 interacting atoms (the van der Waals phases are dropped)",
         detected_by={"C01": "'exactly one exponential per target-time interval' and the step operator clause"},
     ),
+    "C04": dict(
+        property="C04",
+        change="_extract_omega_delta_phi selects the supported basis from the sample dictionary and no longer rejects extra, unsupported bases (a Raman/digital channel next to the Rydberg one is silently dropped)",
+        needs="a sequence with a supported channel plus a channel in a basis the emulators do not implement ('digital')",
+        detected_by={"C04": "adapter_rejects_supported_plus_unsupported (added)", "C22": "rejects_supported_plus_unsupported (added)"},
+        strengthened="MISSED at first: the reject cases covered two supported bases and a single unknown one, not the mix. Added the mixed case (both orders, digital/all) to C22 and re-used the adapter reject cases in C04",
+    ),
+    "C10": dict(
+        property="C10",
+        change="MPS.truncate returns early for bond dimension 1 ('product state: nothing to truncate') and declares centre 0 without orthogonalising",
+        needs="a chi=1 MPS whose non-centre factors are not normalised (e.g. after scaling or a sum of product terms compressed to chi 1)",
+        detected_by={"C10": "truncate_* : state unchanged up to the discarded weight / factors right of the centre are right-orthonormal"},
+    ),
+    "C11": dict(
+        property="C11",
+        change="get_correlation_matrix contracts the operator with dims ([0,2],[0,1]) (operator transposed on the off-diagonal pairs; the earlier defect D13 returning in half)",
+        needs="a non-symmetric single-site operator (not the default number operator) and left != right",
+        detected_by={"C11": "correlation_matrix_*: result[i,j] = <psi|O_i O_j|psi>"},
+    ),
+    "C12": dict(
+        property="C12",
+        change="SparseOperator.from_operator_repr allocates the identity list once and restores only the qubits touched by the LAST factor of a term",
+        needs="an operator with >= 2 terms where a term has >= 2 factors on different qubits",
+        detected_by={"C12": "sparse_operator_*: matrix = sum coeff * kron(...)"},
+    ),
+    "C15": dict(
+        property="C15",
+        change="MPS.sample orthogonalises only when orthogonality_center is None (the lazy pattern of norm/expect_batch)",
+        needs="an entangled MPS whose recorded centre is k > 0 (after apply(k, op) or orthogonalize(k))",
+        detected_by={"C15": "mps_sample_centre_last_n2 (added): weights of site 0 = Born marginal"},
+        strengthened="MISSED at first: every MPS case declared centre 0. Added cases with the centre declared at the last site and a chi=2 bond next to it (known-factorisation QR stub), canary: declaring centre 0 for that state",
+    ),
+    "C16": dict(
+        property="C16",
+        change="RydbergLindbladian.h_eff skips qubits with omega=delta=0 (same idea as seed C06, produced independently)",
+        needs="jump operators present and an undriven qubit",
+        detected_by={"C16": "dm_n1_steps2_ops1: exponentiated map = dt*1e-3*GKSL generator", "C06": "lindblad_n1_ops2_phase_any"},
+    ),
+    "C26": dict(
+        property="C26",
+        change="extra save_simulation() at the end of timestep_complete: the snapshot is taken with the new time step set up but the sweep direction not yet flipped",
+        needs="TDVP with > 2 atoms, the throttled autosave becoming due exactly in the progress step that finishes a time step, interruption before the next autosave",
+        detected_by={"C26": "snapshot_consistency_MPSBackendImpl_n3_steps2 (added): snapshot #1 resumed trace != uninterrupted trace suffix"},
+        strengthened="MISSED at first: C26 modelled progress() as one atomic step per time step. Added a family that runs the real progress()/sweep/timestep_complete/save_simulation state machine with tensor kernels as trace entries and a symbolic clock choosing which saves are due; every snapshot written must resume to exactly the uninterrupted trace suffix",
+    ),
+    "C29": dict(
+        property="C29",
+        change="emu-sv RydbergHamiltonian takes the real (sigma-x only) path when all sin(phi) are ~0, i.e. also for phi = pi",
+        needs="a drive phase of pi (or a multiple) on every atom",
+        detected_by={"C29": "sv_offset_n1: H(phi+c) R_c v = R_c H(phi) v", "C06": "ham_mul_n1_phase: H*v = H_dense v"},
+    ),
     "C25": dict(
         property="C25",
         change="bad-atom mask mapped to the sites with the inverse permutation",
